@@ -1,8 +1,8 @@
 (** C20, part 3: InterpretationMixin -- add_domain, add_factor, new_finite_domain,
     new_finite_factor, shape.  add_factor succeeds iff the label is terminal, consistent with the
-    label table, and the factor's domains equal the domains of the label's node labels one by
-    one; it does NOT refuse a label that is already bound (F14: refutation witness and the
-    positive theorem under the guard). *)
+    label table, not bound yet, and the factor's domains equal the domains of the label's node
+    labels one by one.  (Before /repo 19d007a a bound label was silently rebound, F14: kept as a
+    record about [add_factor_old] at the end.) *)
 From Coq Require Import List Arith Bool PeanoNat ZArith QArith Lia.
 Import ListNotations.
 Require Import Fggs.Model.Domain Fggs.Proofs.Domain_dom Fggs.Proofs.Domain_fac.
@@ -34,9 +34,6 @@ Proof.
         apply Nat.eqb_eq in E''. apply Nat.eqb_neq in E. congruence.
       * apply IH.
 Qed.
-
-Lemma elabel_in_keys_false e m : elabel_in_keys e m = false.
-Proof. unfold elabel_in_keys. induction m; cbn; auto. Qed.
 
 Lemma mapM_Forall2 {A B} (f : A -> result B) : forall l bs,
   mapM f l = Ok bs <-> Forall2 (fun a b => f a = Ok b) l bs.
@@ -136,56 +133,72 @@ Proof.
     apply elabel_eqb_eq. auto.
 Qed.
 
-(** what add_factor does, in one equation *)
-Lemma add_factor_outcome s e f :
-  snd (add_factor s e f) = if bind_spec_guarded s e f then RNone else RErr ValueErr.
+(** what add_factor does, in two equations *)
+Ltac af_unfold :=
+  unfold add_factor, bind_spec, bind_spec_guarded, label_consistent, add_edge_label, label_bound, fac_arity.
+Ltac af_leaf := repeat split; auto; try discriminate.
+
+Lemma add_factor_run s e f :
+  snd (add_factor s e f) = (if bind_spec s e f then RNone else RErr ValueErr) /\
+  st_doms (fst (add_factor s e f)) = st_doms s /\
+  st_facs (fst (add_factor s e f)) =
+    (if bind_spec s e f then dset Nat.eqb (st_facs s) (el_name e) f else st_facs s) /\
+  (bind_spec s e f = true -> el_find (st_els (fst (add_factor s e f))) (el_name e) = Some e).
 Proof.
-  unfold add_factor, bind_spec_guarded, label_consistent, add_edge_label.
-  destruct (el_terminal e); cbn [negb andb]; [|reflexivity].
-  destruct (el_find (st_els s) (el_name e)) as [e'|].
-  - destruct (elabel_eqb e' e); cbn [negb andb]; [|reflexivity].
-    rewrite elabel_in_keys_false. cbn [st_doms st_facs mk_state fst snd].
-    rewrite doms_match_check. unfold fac_arity.
-    destruct (Nat.eqb (length (fac_doms f)) (length (el_type e))); cbn [negb andb]; [|reflexivity].
-    destruct (check_doms (st_doms s) (el_type e) (fac_doms f)); reflexivity.
-  - rewrite elabel_in_keys_false. cbn [st_doms st_facs mk_state fst snd].
-    rewrite doms_match_check. unfold fac_arity.
-    destruct (Nat.eqb (length (fac_doms f)) (length (el_type e))); cbn [negb andb]; [|reflexivity].
-    destruct (check_doms (st_doms s) (el_type e) (fac_doms f)); reflexivity.
+  af_unfold. rewrite doms_match_check.
+  destruct (el_terminal e); cbn [negb andb]; [|af_leaf].
+  destruct (el_find (st_els s) (el_name e)) as [e'|];
+    [destruct (elabel_eqb e' e); cbn [negb andb]; [|af_leaf]|];
+    cbn [st_doms st_facs st_els st_nls mk_state fst snd];
+    (destruct (dmem Nat.eqb (st_facs s) (el_name e)); cbn [negb];
+     rewrite ?andb_false_r, ?andb_true_r; [af_leaf|]);
+    (destruct (Nat.eqb (length (fac_doms f)) (length (el_type e))); cbn [negb andb]; [|af_leaf]);
+    (destruct (check_doms (st_doms s) (el_type e) (fac_doms f));
+     cbn [negb fst snd st_doms st_facs st_els st_nls mk_state]; [|af_leaf]);
+    af_leaf; intros _; rewrite el_find_set, Nat.eqb_refl; reflexivity.
 Qed.
 
-(** C20_binding as the code stands: success iff terminal label, consistent with the label table,
-    same arity, and every node label mapped to a domain equal to the factor's *)
+Lemma add_factor_outcome s e f :
+  snd (add_factor s e f) = if bind_spec s e f then RNone else RErr ValueErr.
+Proof. apply add_factor_run. Qed.
+
+Theorem bind_spec_iff s e f :
+  bind_spec s e f = true <->
+  el_terminal e = true /\
+  (forall e', el_find (st_els s) (el_name e) = Some e' -> e' = e) /\
+  length (fac_doms f) = length (el_type e) /\
+  Forall2 (fun nl d => exists d', dget Nat.eqb (st_doms s) nl = Some d' /\ dom_content d = dom_content d')
+          (el_type e) (fac_doms f) /\
+  dmem Nat.eqb (st_facs s) (el_name e) = false.
+Proof.
+  unfold bind_spec. rewrite andb_true_iff, negb_true_iff, bind_spec_guarded_iff. tauto.
+Qed.
+
+(** C20_binding, full strength: add_factor succeeds iff the label is terminal, no different
+    label of that name is registered, arities agree, every node label is mapped to a domain equal
+    to the factor's, and the label is not already bound *)
 Theorem add_factor_iff s e f :
   snd (add_factor s e f) = RNone <->
   el_terminal e = true /\
   (forall e', el_find (st_els s) (el_name e) = Some e' -> e' = e) /\
   length (fac_doms f) = length (el_type e) /\
   Forall2 (fun nl d => exists d', dget Nat.eqb (st_doms s) nl = Some d' /\ dom_content d = dom_content d')
-          (el_type e) (fac_doms f).
+          (el_type e) (fac_doms f) /\
+  dmem Nat.eqb (st_facs s) (el_name e) = false.
 Proof.
-  rewrite add_factor_outcome, <- bind_spec_guarded_iff.
-  destruct (bind_spec_guarded s e f); split; auto; discriminate.
+  rewrite add_factor_outcome, <- bind_spec_iff.
+  destruct (bind_spec s e f); split; auto; discriminate.
 Qed.
+
+Theorem add_factor_spec s e f : snd (add_factor s e f) = RNone <-> bind_spec s e f = true.
+Proof. rewrite add_factor_outcome. destruct (bind_spec s e f); split; auto; discriminate. Qed.
 
 Theorem add_factor_fails s e f : snd (add_factor s e f) <> RNone ->
   snd (add_factor s e f) = RErr ValueErr /\
   st_facs (fst (add_factor s e f)) = st_facs s /\ st_doms (fst (add_factor s e f)) = st_doms s.
 Proof.
-  rewrite add_factor_outcome. destruct (bind_spec_guarded s e f) eqn:E; [congruence|]. intros _.
-  split; auto. revert E.
-  unfold add_factor, bind_spec_guarded, label_consistent, add_edge_label.
-  destruct (el_terminal e); cbn [negb andb]; [|auto].
-  destruct (el_find (st_els s) (el_name e)) as [e'|].
-  - destruct (elabel_eqb e' e); cbn [negb andb]; [|auto].
-    rewrite elabel_in_keys_false. cbn [st_doms st_facs mk_state fst snd].
-    rewrite doms_match_check. unfold fac_arity.
-    destruct (Nat.eqb (length (fac_doms f)) (length (el_type e))); cbn [negb andb]; [|auto].
-    destruct (check_doms (st_doms s) (el_type e) (fac_doms f)); [discriminate|auto].
-  - rewrite elabel_in_keys_false. cbn [st_doms st_facs mk_state fst snd].
-    rewrite doms_match_check. unfold fac_arity.
-    destruct (Nat.eqb (length (fac_doms f)) (length (el_type e))); cbn [negb andb]; [|auto].
-    destruct (check_doms (st_doms s) (el_type e) (fac_doms f)); [discriminate|auto].
+  destruct (add_factor_run s e f) as [Ho [Hd [Hf _]]]. rewrite Ho, Hf, Hd.
+  destruct (bind_spec s e f); [congruence|auto].
 Qed.
 
 Theorem add_factor_post s e f : snd (add_factor s e f) = RNone ->
@@ -194,61 +207,29 @@ Theorem add_factor_post s e f : snd (add_factor s e f) = RNone ->
   (forall m, m <> el_name e -> dget Nat.eqb (st_facs s') m = dget Nat.eqb (st_facs s) m) /\
   st_doms s' = st_doms s /\ el_find (st_els s') (el_name e) = Some e.
 Proof.
-  rewrite add_factor_outcome. destruct (bind_spec_guarded s e f) eqn:E; [|discriminate]. intros _.
-  revert E. unfold add_factor, bind_spec_guarded, label_consistent, add_edge_label.
-  destruct (el_terminal e); cbn [negb andb]; [|discriminate].
-  assert (G : forall s1, st_doms s1 = st_doms s -> st_facs s1 = st_facs s ->
-              el_find (st_els s1) (el_name e) = Some e ->
-              doms_match (st_doms s) (el_type e) (fac_doms f) = true ->
-              let s' := fst (if elabel_in_keys e (st_facs s1) then (s1, RErr ValueErr)
-                             else if negb (Nat.eqb (fac_arity f) (length (el_type e))) then (s1, RErr ValueErr)
-                             else if negb (check_doms (st_doms s1) (el_type e) (fac_doms f)) then (s1, RErr ValueErr)
-                             else (mk_state (st_nls s1) (st_els s1) (st_doms s1) (dset Nat.eqb (st_facs s1) (el_name e) f), RNone)) in
-              dget Nat.eqb (st_facs s') (el_name e) = Some f /\
-              (forall m, m <> el_name e -> dget Nat.eqb (st_facs s') m = dget Nat.eqb (st_facs s) m) /\
-              st_doms s' = st_doms s /\ el_find (st_els s') (el_name e) = Some e).
-  { intros s1 Hd Hf He Hm. rewrite elabel_in_keys_false, Hd, Hf.
-    rewrite doms_match_check in Hm. apply andb_true_iff in Hm. destruct Hm as [Ha Hc].
-    unfold fac_arity. rewrite Ha, Hc. cbn [negb fst st_facs st_doms st_els mk_state snd].
-    split; [|split; [|split; auto]].
-    - rewrite (dget_dset Nat.eqb Nat.eqb_eq), Nat.eqb_refl. reflexivity.
-    - intros m Hne. rewrite (dget_dset Nat.eqb Nat.eqb_eq).
-      destruct (Nat.eqb (el_name e) m) eqn:E; auto. apply Nat.eqb_eq in E. congruence. }
-  destruct (el_find (st_els s) (el_name e)) as [e'|].
-  - destruct (elabel_eqb e' e); cbn [negb andb]; [|discriminate].
-    intros Hm. apply G; auto. cbn [st_els mk_state fst snd]. rewrite el_find_set, Nat.eqb_refl. reflexivity.
-  - intros Hm. apply G; auto. cbn [st_els mk_state fst snd]. rewrite el_find_set, Nat.eqb_refl. reflexivity.
+  destruct (add_factor_run s e f) as [Ho [Hd [Hf He]]]. rewrite Ho.
+  destruct (bind_spec s e f); [|discriminate]. intros _. cbv zeta. rewrite Hf, Hd.
+  split; [|split; [|split; auto]].
+  - rewrite (dget_dset Nat.eqb Nat.eqb_eq), Nat.eqb_refl. reflexivity.
+  - intros m Hne. rewrite (dget_dset Nat.eqb Nat.eqb_eq).
+    destruct (Nat.eqb (el_name e) m) eqn:E; auto. apply Nat.eqb_eq in E. congruence.
 Qed.
 
-(** the property as stated -- "... and the label is not already bound" -- is refuted: F14 *)
-Definition f14_state : istate := ([], [(0, [], true)], [], [(0, FConst [] 1)]).
-Theorem binding_refuted :
-  dmem Nat.eqb (st_facs f14_state) 0 = true /\
-  snd (add_factor f14_state (0, [], true) (FConst [] 2)) = RNone /\
-  dget Nat.eqb (st_facs (fst (add_factor f14_state (0, [], true) (FConst [] 2)))) 0 = Some (FConst [] 2).
-Proof. repeat split; reflexivity. Qed.
-
-Theorem binding_full_refuted :
-  ~ (forall s e f, snd (add_factor s e f) = RNone <-> bind_spec s e f = true).
+(** a bound label is refused and keeps its factor *)
+Theorem add_factor_bound s e f : dmem Nat.eqb (st_facs s) (el_name e) = true ->
+  snd (add_factor s e f) = RErr ValueErr /\ st_facs (fst (add_factor s e f)) = st_facs s.
 Proof.
-  intros H. destruct (H f14_state (0, [], true) (FConst [] 2)) as [H1 _].
-  specialize (H1 eq_refl). discriminate.
-Qed.
-
-(** ... and holds under the guard that the label has no factor yet *)
-Theorem binding_guarded s e f : dmem Nat.eqb (st_facs s) (el_name e) = false ->
-  (snd (add_factor s e f) = RNone <-> bind_spec s e f = true).
-Proof.
-  intros Hg. unfold bind_spec. rewrite Hg, andb_true_r, add_factor_outcome.
-  destruct (bind_spec_guarded s e f); split; auto; discriminate.
+  intros Hb. assert (E : bind_spec s e f = false) by (unfold bind_spec; rewrite Hb; apply andb_false_r).
+  destruct (add_factor_run s e f) as [Ho [_ [Hf _]]]. rewrite Ho, Hf, E. auto.
 Qed.
 
 Example binding_example :
   let d := mk_finite Reiterable [VOther 0; VOther 1] in
   let s : istate := ([0], [], [(0, d)], []) in
-  let f := FFinite [mk_finite Reiterable [VOther 0; VOther 1]; d] [2; 2] [1; 2; 3; 4]%Q in
-  dmem Nat.eqb (st_facs s) 7 = false /\ bind_spec s (7, [0; 0], true) f = true /\
-  snd (add_factor s (7, [0; 0], true) f) = RNone.
+  let f := FFinite [mk_finite OneShot [VOther 0; VOther 1]; d] [2; 2] [1; 2; 3; 4]%Q in
+  bind_spec s (7, [0; 0], true) f = true /\
+  snd (add_factor s (7, [0; 0], true) f) = RNone /\
+  snd (add_factor (fst (add_factor s (7, [0; 0], true) f)) (7, [0; 0], true) f) = RErr ValueErr.
 Proof. repeat split; reflexivity. Qed.
 
 (** * shape *)
@@ -284,7 +265,7 @@ Theorem shape_after_binding s e f : snd (add_factor s e f) = RNone ->
   shape_of (fst (add_factor s e f)) (SEdgeLabel e) = Ok (map dom_size (fac_doms f)).
 Proof.
   intros H. pose proof (add_factor_post s e f H) as [_ [_ [Hd _]]].
-  apply add_factor_iff in H. destruct H as [_ [_ [_ HF]]].
+  apply add_factor_iff in H. destruct H as [_ [_ [_ [HF _]]]].
   apply shape_of_iff. cbn [shape_labels]. rewrite Hd.
   induction HF as [|nl d nls ds [d' [H1 H2]] HF IH]; cbn [map]; constructor; auto.
   exists d'. split; auto. symmetry. apply dom_eqb_size, dom_eqb_content; auto.
@@ -311,11 +292,12 @@ Proof.
 Qed.
 
 (** new_finite_factor(name, weights) returns the new factor iff the name is a registered terminal
-    label, all its node labels have domains, and the weights have the shape of those domains'
-    sizes -- again whether or not the label is bound already (F14) *)
+    label without a factor, all its node labels have domains, and the weights have the shape of
+    those domains' sizes *)
 Theorem new_finite_factor_iff s n w f :
   snd (new_finite_factor s n w) = RFac f <->
   exists e doms, el_find (st_els s) n = Some e /\ el_terminal e = true /\
+    dmem Nat.eqb (st_facs s) n = false /\
     mapM (fun nl => match dget Nat.eqb (st_doms s) nl with Some d => Ok d | None => Err KeyErr end) (el_type e) = Ok doms /\
     mk_finite_factor doms w = Ok f.
 Proof.
@@ -324,36 +306,50 @@ Proof.
   2:{ cbn. split; [discriminate|]. intros [e [doms [H _]]]. discriminate. }
   destruct (mapM (fun nl => match dget Nat.eqb (st_doms s) nl with Some d => Ok d | None => Err KeyErr end) (el_type e))
     as [doms|x] eqn:Ed.
-  2:{ cbn. split; [discriminate|]. intros [e' [doms [H [_ [H2 _]]]]]. injection H as <-. congruence. }
+  2:{ cbn. split; [discriminate|]. intros [e' [doms [H [_ [_ [H2 _]]]]]]. injection H as <-. congruence. }
   destruct (mk_finite_factor doms w) as [f'|x] eqn:Ef.
-  2:{ cbn. split; [discriminate|]. intros [e' [doms' [H [_ [H2 H3]]]]]. injection H as <-.
+  2:{ cbn. split; [discriminate|]. intros [e' [doms' [H [_ [_ [H2 H3]]]]]]. injection H as <-.
       rewrite Ed in H2. injection H2 as <-. congruence. }
   pose proof (add_factor_outcome s e f') as Ho.
-  assert (Hg : bind_spec_guarded s e f' = el_terminal e).
-  { unfold bind_spec_guarded, label_consistent. rewrite (el_find_name _ _ _ Ee), Ee.
+  assert (Hg : bind_spec s e f' = el_terminal e && negb (dmem Nat.eqb (st_facs s) n)).
+  { unfold bind_spec, bind_spec_guarded, label_consistent. rewrite (el_find_name _ _ _ Ee), Ee.
     assert (elabel_eqb e e = true) as -> by (apply elabel_eqb_eq; reflexivity).
     apply finite_factor_accepts_iff in Ef. destruct Ef as [_ [sh [d [_ [_ ->]]]]]. cbn [fac_doms].
     rewrite (check_doms_self _ _ _ Ed). destruct (el_terminal e); reflexivity. }
   rewrite Hg in Ho. destruct (add_factor s e f') as [s1 r]. cbn [snd] in Ho. subst r.
-  destruct (el_terminal e) eqn:Et; cbn [snd].
+  destruct (el_terminal e) eqn:Et, (dmem Nat.eqb (st_facs s) n) eqn:Eb; cbn [snd andb negb].
+  - split; [discriminate|]. intros [e' [doms' [H [_ [H1 _]]]]]. discriminate.
   - split.
     + intros H; injection H as <-. exists e, doms. auto.
-    + intros [e' [doms' [H [_ [H2 H3]]]]]. injection H as <-. rewrite Ed in H2. injection H2 as <-. congruence.
+    + intros [e' [doms' [H [_ [_ [H2 H3]]]]]]. injection H as <-. rewrite Ed in H2. injection H2 as <-. congruence.
+  - split; [discriminate|]. intros [e' [doms' [H [H1 _]]]]. injection H as <-. congruence.
   - split; [discriminate|]. intros [e' [doms' [H [H1 _]]]]. injection H as <-. congruence.
 Qed.
 
-Theorem new_finite_factor_rebinds :
-  exists s n w f, dmem Nat.eqb (st_facs s) n = true /\ snd (new_finite_factor s n w) = RFac f.
+(** * The verdict the check computes for the model's own outcome is 0 *)
+Theorem step_oracle_add_factor s e f :
+  step_oracle s (OAddFactor e f) (snd (add_factor s e f)) = 0.
 Proof.
-  exists ([], [(0, [], true)], [], [(0, FConst [] 1)]), 0, (WTensor [] [2%Q]), (FFinite [] [] [2%Q]).
-  split; reflexivity.
+  cbn [step_oracle]. rewrite add_factor_outcome.
+  destruct (bind_spec s e f); reflexivity.
 Qed.
 
-(** * The verdict the check computes for the model's own outcome: never 1 *)
-Theorem step_oracle_add_factor s e f :
-  step_oracle s (OAddFactor e f) (snd (add_factor s e f)) =
-  if bind_spec_guarded s e f && dmem Nat.eqb (st_facs s) (el_name e) then 3 else 0.
-Proof.
-  cbn [step_oracle]. rewrite add_factor_outcome. unfold bind_spec.
-  destruct (bind_spec_guarded s e f), (dmem Nat.eqb (st_facs s) (el_name e)); reflexivity.
-Qed.
+(** * Record of F14 (repaired in /repo 19d007a) *)
+(** [el in self.factors] looked an EdgeLabel up among str keys: constantly false *)
+Definition add_factor_old (s : istate) (e : elabel) (f : factor) : istate * outcome :=
+  if negb (el_terminal e) then (s, RErr ValueErr)
+  else match add_edge_label s e with
+       | (s1, RNone) =>
+         if existsb (fun _ : name * factor => false) (st_facs s1) then (s1, RErr ValueErr)
+         else if negb (Nat.eqb (fac_arity f) (length (el_type e))) then (s1, RErr ValueErr)
+         else if negb (check_doms (st_doms s1) (el_type e) (fac_doms f)) then (s1, RErr ValueErr)
+         else (mk_state (st_nls s1) (st_els s1) (st_doms s1) (dset Nat.eqb (st_facs s1) (el_name e) f), RNone)
+       | (s1, r) => (s1, r)
+       end.
+Definition f14_state : istate := ([], [(0, [], true)], [], [(0, FConst [] 1)]).
+Theorem binding_refuted_old :
+  dmem Nat.eqb (st_facs f14_state) 0 = true /\
+  snd (add_factor_old f14_state (0, [], true) (FConst [] 2)) = RNone /\
+  dget Nat.eqb (st_facs (fst (add_factor_old f14_state (0, [], true) (FConst [] 2)))) 0 = Some (FConst [] 2) /\
+  snd (add_factor f14_state (0, [], true) (FConst [] 2)) = RErr ValueErr.
+Proof. repeat split; reflexivity. Qed.
